@@ -104,6 +104,11 @@ pub fn c12(ctx: &Ctx) -> PropResult {
         ("ok", "IMPORT \"SQRT\" FROM MOD \"nothing.ap\"".into()),
         ("ok", "IMPORT MOD \"STYLE\"\nSTYLE(\"red\")\nDISPLAY(\"x\")\nCLEAR_STYLE()\n".into()),
         ("ok", "IMPORT MOD \"IO\"\nDISPLAYF(\"{}-{}\", [1, \"a\"])\n".into()),
+        // EXPORT in a program that is not imported by anyone is an ordinary declaration, in every mode
+        ("ok", "EXPORT PROCEDURE f() {\n RETURN 42\n}\nDISPLAY(f())\n".into()),
+        ("ok", "export procedure g(a) {\n return a + 1\n}\nPROCEDURE h() {\n RETURN g(1)\n}\nDISPLAY(h())\n".into()),
+        // a visible effect outside the output: with --check it must not happen
+        ("effect", "IMPORT MOD \"FS\"\nDISPLAY(FILE_CREATE(\"made_by_the_program.txt\"))\nDISPLAY(\"ran\")\n".into()),
         // byte-level layout: every mode must hand the lexer the same bytes
         ("bytes", "DISPLAY(\"a\")\r\nDISPLAY(\"b\")\r\n".into()),
         ("bytes", "x <- \"a\r\nb\"\r\nDISPLAY(x)\r\nDISPLAY(LENGTH(x))\r\n".into()),
@@ -185,8 +190,11 @@ pub fn c12(ctx: &Ctx) -> PropResult {
         for mode in ["file", "eval", "stdin"] {
             for debug in ["none", "time", "all", "lexer", "parser", "interpreter"] {
                 for check in [false, true] {
-                    if check && debug != "none" {
-                        continue; // clap rejects the combination
+                    // --check together with a debug mode: clap rejects the combination today (a usage error); whatever
+                    // the tool does with it, --check executes nothing and prints nothing to standard output
+                    // (implementation-only oracle, one program class is enough for the other classes' sake)
+                    if check && debug != "none" && !matches!(*class, "ok" | "runtime" | "effect") {
+                        continue;
                     }
                     if *class == "random" && !(debug == "none" || rng.chance(1, 6)) {
                         continue;
@@ -251,11 +259,29 @@ pub fn c12(ctx: &Ctx) -> PropResult {
             return Verdict { tags: vec!["skipped:model-out-of-budget".into()], sample: format!("fuel | {}", c.src), nontrivial: false, failure: None };
         }
         let argrefs: Vec<&str> = args.iter().map(|s| s.as_str()).collect();
-        let (r1, r2) = if closed {
-            (crate::props4::run_binary_stdin_closed(&argrefs, dir), crate::props4::run_binary_stdin_closed(&argrefs, dir))
-        } else {
-            (run_binary(&argrefs, stdin_data.as_deref(), dir), run_binary(&argrefs, stdin_data.as_deref(), dir)) // "on every run"
-        };
+        let effect_file = dir.join("made_by_the_program.txt");
+        let _ = std::fs::remove_file(&effect_file);
+        if c.check && c.debug != "none" {
+            let r = run_binary(&argrefs, stdin_data.as_deref(), dir);
+            let case = Case::new(Kind::Run, c.src.clone()).aux(format!("mode={} debug={} check={} stdin={:?}", c.mode, c.debug, c.check, c.stdin));
+            let impl_rec = format!("exit={:?} stdout={} stderr_nonempty={}", r.code, hex(&r.stdout), !r.stderr.is_empty());
+            let mut failure = None;
+            if !r.stdout.is_empty() {
+                failure = fail("impl-vs-oracle", case.clone(), impl_rec.clone(), String::new(), "--check (with a debug mode) wrote to standard output".into());
+            } else if effect_file.exists() {
+                failure = fail("impl-vs-oracle", case.clone(), impl_rec.clone(), String::new(), "--check (with a debug mode) executed the program: the file it creates exists".into());
+            } else if r.code != Some(0) && r.stderr.is_empty() {
+                failure = fail("impl-vs-oracle", case.clone(), impl_rec.clone(), String::new(), "non-zero exit without diagnostics on standard error".into());
+            }
+            let _ = std::fs::remove_file(&effect_file);
+            return Verdict { tags: vec![format!("class:{}", c.class), format!("mode:{}", c.mode), "check-with-debug".into()], sample: format!("{} | {}", case.aux, c.src), nontrivial: true, failure };
+        }
+        // "on every run": twice, from the same starting state
+        let r1 = if closed { crate::props4::run_binary_stdin_closed(&argrefs, dir) } else { run_binary(&argrefs, stdin_data.as_deref(), dir) };
+        let effect_happened = effect_file.exists();
+        let _ = std::fs::remove_file(&effect_file);
+        let r2 = if closed { crate::props4::run_binary_stdin_closed(&argrefs, dir) } else { run_binary(&argrefs, stdin_data.as_deref(), dir) };
+        let _ = std::fs::remove_file(&effect_file);
         let f: Vec<&str> = reply.split(' ').collect();
         let case = Case::new(Kind::Run, c.src.clone()).aux(format!("mode={} debug={} check={} stdin={:?}", c.mode, c.debug, c.check, c.stdin));
         let impl_rec = format!("exit={:?} stdout={} stderr_nonempty={}", r1.code, hex(&r1.stdout), !r1.stderr.is_empty());
@@ -275,6 +301,8 @@ pub fn c12(ctx: &Ctx) -> PropResult {
                 failure = fail("impl-vs-oracle", case.clone(), impl_rec.clone(), reply.clone(), "non-zero exit without diagnostics on standard error".into());
             } else if c.check && !r1.stdout.is_empty() {
                 failure = fail("impl-vs-oracle", case.clone(), impl_rec.clone(), reply.clone(), "--check wrote to standard output".into());
+            } else if c.check && effect_happened {
+                failure = fail("impl-vs-oracle", case.clone(), impl_rec.clone(), reply.clone(), "--check executed the program: the file it creates exists".into());
             } else if r1.code != r2.code || r1.stdout != r2.stdout {
                 failure = fail("impl-vs-oracle", case.clone(), impl_rec.clone(), reply.clone(), "two runs of the same invocation differ".into());
             }
@@ -360,7 +388,7 @@ pub fn c12(ctx: &Ctx) -> PropResult {
     let stats = collect(verdicts);
     PropResult {
         stats,
-        rule: format!("{} programs (succeeding, lexical / syntax / runtime errors, robot-wall termination, reading INPUT, imports with a bracketed list, random programs) x {{file, -e, --eval-stdin}} x six --debug modes x --check x stdin empty / two lines; the real binary built from /repo without the hook feature is spawned twice per configuration; compared with the model's decision: exit status zero / non-zero, standard-output bytes, diagnostics present on standard error; implementation-only: --check prints nothing, two runs agree; the empty, blank, newline-only, comment-only and `;` programs in every mode, -e included", all_programs.len()),
+        rule: format!("{} programs (succeeding, lexical / syntax / runtime errors, robot-wall termination, reading INPUT, imports with a bracketed list, random programs) x {{file, -e, --eval-stdin}} x six --debug modes x --check x stdin empty / two lines; the real binary built from /repo without the hook feature is spawned twice per configuration; compared with the model's decision: exit status zero / non-zero, standard-output bytes, diagnostics present on standard error; implementation-only: --check prints nothing, two runs agree; the empty, blank, newline-only, comment-only and `;` programs in every mode, -e included; --check together with every --debug mode (nothing on standard output, nothing executed: a program that creates a file); EXPORT in programs nobody imports", all_programs.len()),
         exhaustive: false,
         notes: vec![format!("binary: {BINARY}")],
     }
@@ -461,6 +489,32 @@ pub fn c19(ctx: &Ctx) -> PropResult {
             }
         }
     }
+    // the same question asked again after the answer has changed (nothing remembered from the first time): a read,
+    // a change that keeps the length (and happens within the same second), the read again - under every spelling
+    {
+        let same_len = [("\"text\"", "\"full\""), ("\"text\"", "TRUE"), ("NULL", "12.5"), ("\"a\"", "\"b\""), ("\"\"", "\"\""), ("\"héllo\\n\"", "\"wörld\\n\"")];
+        for (c1, c2) in same_len {
+            for (p1, p2) in [("f1", "f1"), ("f1", "./f1"), ("d/f", "d/f"), ("d/f", "d/../d/f")] {
+                let mk = if p1.starts_with('d') { "DISPLAY(DIRECTORY_CREATE(\"d\"))\n" } else { "" };
+                for change in [
+                    format!("DISPLAY(FILE_OVERWRITE(\"{p2}\", {c2}))\n"),
+                    format!("DISPLAY(FILE_REMOVE(\"{p2}\"))\nDISPLAY(FILE_CREATE(\"{p2}\"))\nDISPLAY(FILE_APPEND(\"{p2}\", {c2}))\n"),
+                    format!("DISPLAY(FILE_REMOVE(\"{p2}\"))\n"),
+                    format!("DISPLAY(FILE_REMOVE(\"{p2}\"))\nDISPLAY(DIRECTORY_CREATE(\"{p2}\"))\n"),
+                ] {
+                    histories.push(format!("{pre}{mk}DISPLAY(FILE_CREATE(\"{p1}\"))\nDISPLAY(FILE_OVERWRITE(\"{p1}\", {c1}))\nDISPLAY([FILE_READ(\"{p1}\")])\nDISPLAY([FILE_READ(\"{p1}\")])\n{change}DISPLAY([FILE_READ(\"{p1}\")])\nDISPLAY([FILE_READ(\"{p2}\")])\nDISPLAY(PATH_IS_FILE(\"{p1}\"))\n"));
+                }
+            }
+        }
+        // a directory made, its ancestor removed (under any spelling), the directory made again and used
+        for make in ["DIRECTORY_CREATE_ALL(\"d/e\")", "DIRECTORY_CREATE_ALL(\"d/e/g\")", "DIRECTORY_CREATE_ALL(\"d\")", "DIRECTORY_CREATE(\"d\")"] {
+            for unmake in ["DIRECTORY_REMOVE_ALL(\"d\")", "DIRECTORY_REMOVE_ALL(\"./d\")", "DIRECTORY_REMOVE_ALL(\"d/\")", "DIRECTORY_REMOVE_ALL(\"d/e\")", "DIRECTORY_REMOVE(\"d/e\")", "DIRECTORY_REMOVE(\"d\")", "DIRECTORY_REMOVE_ALL(\"d/e/..\")", "FILE_REMOVE(\"d\")"] {
+                for again in [make, "DIRECTORY_CREATE_ALL(\"d/e\")", "DIRECTORY_CREATE(\"d/e\")"] {
+                    histories.push(format!("{pre}DISPLAY({make})\nDISPLAY({make})\nDISPLAY(FILE_CREATE(\"d/e/a.txt\"))\nDISPLAY({unmake})\nDISPLAY(PATH_EXISTS(\"d\"))\nDISPLAY(PATH_IS_DIRECTORY(\"d/e\"))\nDISPLAY({again})\nDISPLAY(PATH_IS_DIRECTORY(\"d/e\"))\nDISPLAY(FILE_CREATE(\"d/e/a.txt\"))\nDISPLAY(PATH_IS_FILE(\"d/e/a.txt\"))\n{}", stmt("DIRECTORY_READ", "d", "")));
+                }
+            }
+        }
+    }
     let n = if ctx.quick() { 500 } else { 12_000 };
     for _ in 0..n {
         let len = 3 + rng.below(28);
@@ -525,7 +579,7 @@ pub fn c19(ctx: &Ctx) -> PropResult {
     let stats = collect(verdicts);
     PropResult {
         stats,
-        rule: "histories of the 13 FS procedures over path names {f1, f2, d, d/f, d/e, d/e/g, \"\", ., d/, ./f1, nope/x, f1/x} with contents of every value kind, each in a fresh temporary directory, run by the real binary: all histories of length 2 over 6 paths with and without a creation prefix (quick: a sample), random histories of length 3-30, every FS procedure on every argument exemplar; after each history the standard output (every result; DIRECTORY_READ as a multiset) and a full snapshot of the directory tree with file contents are compared with the file-system model".into(),
+        rule: "histories of the 13 FS procedures over path names {f1, f2, d, d/f, d/e, d/e/g, \"\", ., d/, ./f1, nope/x, f1/x} with contents of every value kind, each in a fresh temporary directory, run by the real binary: all histories of length 2 over 6 paths with and without a creation prefix (quick: a sample), random histories of length 3-30, every FS procedure on every argument exemplar; after each history the standard output (every result; DIRECTORY_READ as a multiset) and a full snapshot of the directory tree with file contents are compared with the file-system model; read / change keeping the length (4 ways, 2 spellings) / read again; a directory made, its ancestor removed (8 spellings), made again and used".into(),
         exhaustive: !ctx.quick(),
         notes: vec![],
     }
@@ -570,8 +624,15 @@ pub fn c13(ctx: &Ctx) -> PropResult {
             forms.push((format!("PROCEDURE local_fn() {{\n}}\nIMPORT [\"{}\", \"local_fn\"] FROM MOD \"{m}\"\n", names[0].0), vec![], "unknown-name"));
             forms.push((format!("IMPORT [\"{}\", \"LENGTH\"] FROM MOD \"{m}\"\n", names[0].0), vec![], "unknown-name"));
         }
+        // several imports of the same module one after the other: exactly the union of what they name is callable
+        for (imp, visible) in crate::props6::import_sequences(&names, m) {
+            forms.push((imp, visible, "sequence"));
+        }
         for (imp, visible, kind) in forms {
             for (pm, pn, pa) in &reg {
+                if kind == "sequence" && pm != m && pm != "CORE" {
+                    continue;
+                }
                 if ctx.quick() && *kind != *"unknown-name" && rng.below(3) != 0 && pm != m {
                     continue;
                 }
@@ -825,6 +886,48 @@ pub fn c13(ctx: &Ctx) -> PropResult {
             inv_verdicts.push(Verdict { tags: vec!["invocation-independence".into()], sample: format!("layout {li}: {main_src}"), nontrivial: true, failure });
             let _ = std::fs::remove_dir_all(&root);
         }
+        // symbolic links: a module name is resolved beside the path its importer was named by (the model's rule,
+        // Thm/C13 module_file_path_is_textual; the model's file tree has no links, so the expected output is stated here)
+        {
+            let root = scratch_dir("c13-symlink");
+            let w = |p: &str, c: &str| {
+                let full = root.join(p);
+                let _ = std::fs::create_dir_all(full.parent().unwrap());
+                let _ = std::fs::write(&full, c);
+            };
+            let where_fn = |t: &str| format!("DISPLAY(\"util top: {t}\")\nEXPORT PROCEDURE where() {{\n RETURN \"{t}\"\n}}\n");
+            w("real/main.ap", "IMPORT MOD \"util.ap\"\nDISPLAY(where())\n");
+            w("real/util.ap", &where_fn("beside the target"));
+            w("link/util.ap", &where_fn("beside the link"));
+            w("realmod/m.ap", "IMPORT MOD \"util.ap\"\nDISPLAY(where())\nEXPORT PROCEDURE via() {\n RETURN \"via\"\n}\n");
+            w("realmod/util.ap", &where_fn("beside the target"));
+            w("linkmod/util.ap", &where_fn("beside the link"));
+            w("main2.ap", "IMPORT MOD \"linkmod/m.ap\"\nDISPLAY(via())\n");
+            w("main3.ap", "IMPORT MOD \"dlink/util.ap\"\nDISPLAY(where())\n");
+            let _ = std::os::unix::fs::symlink("../real/main.ap", root.join("link/main.ap"));
+            let _ = std::os::unix::fs::symlink("../realmod/m.ap", root.join("linkmod/m.ap"));
+            let _ = std::os::unix::fs::symlink("real", root.join("dlink"));
+            for (args, cwd, expected) in [
+                (vec!["link/main.ap"], "", "util top: beside the link\nbeside the link\n"),
+                (vec!["real/main.ap"], "", "util top: beside the target\nbeside the target\n"),
+                (vec!["main.ap"], "link", "util top: beside the link\nbeside the link\n"),
+                (vec!["./link/../link/main.ap"], "", "util top: beside the link\nbeside the link\n"),
+                (vec!["main2.ap"], "", "util top: beside the link\nbeside the link\nvia\n"),
+                (vec!["dlink/main.ap"], "", "util top: beside the target\nbeside the target\n"),
+                (vec!["main3.ap"], "", "util top: beside the target\nbeside the target\n"),
+            ] {
+                let abs_variant = root.join(cwd).join(args[0]).to_string_lossy().to_string();
+                for (how, r) in [("relative", run_binary(&args, None, &root.join(cwd))), ("absolute", run_binary(&[&abs_variant], None, &root))] {
+                    let mut failure = None;
+                    if String::from_utf8_lossy(&r.stdout) != expected || r.code != Some(0) {
+                        let case = Case::new(Kind::Run, format!("aplang {} (in {:?}, {how} path; tree with symbolic links: link/main.ap -> ../real/main.ap, linkmod/m.ap -> ../realmod/m.ap, dlink -> real)", args[0], cwd));
+                        failure = fail("impl-vs-oracle", case, format!("exit={:?} stdout={}", r.code, hex(&r.stdout)), format!("expected stdout={}", hex(expected.as_bytes())), "a module is not resolved beside the path its importer was named by".into());
+                    }
+                    inv_verdicts.push(Verdict { tags: vec!["symbolic-links".into()], sample: format!("{} in {:?}", args[0], cwd), nontrivial: true, failure });
+                }
+            }
+            let _ = std::fs::remove_dir_all(&root);
+        }
     }
     // module files that cannot be read as text: a diagnostic at the import, nothing of the module runs
     let mut raw_verdicts = vec![];
@@ -858,7 +961,7 @@ pub fn c13(ctx: &Ctx) -> PropResult {
     stats.merge(collect(raw_verdicts));
     PropResult {
         stats,
-        rule: "library imports: for every module of the live registry the forms IMPORT MOD, IMPORT \"f\" FROM MOD (several names), IMPORT [f, g] FROM MOD, an unknown name, an unknown module; after each, every procedure name of the whole registry is probed without running it (a call with one argument too many: the label is the argument list iff the name is defined, the name iff it is not) and the importer's variable is displayed; user modules: generated files in the importer's directory or sub-directories with top-level output, a module variable, two exported procedures (one calling the other), a private procedure, optionally a runtime / syntax / lexical error or a nested import relative to the module's own directory; imported whole, by one name, by a list, by a private name, twice; probes for exported / private / module-variable / nested names and the importer's variables; in-process with the model given the same file tree; modules declaring one name several times (exported / private in every order) under every import form; module top-level code calling what only its importer imported or declared".into(),
+        rule: "library imports: for every module of the live registry the forms IMPORT MOD, IMPORT \"f\" FROM MOD (several names), IMPORT [f, g] FROM MOD, an unknown name, an unknown module; after each, every procedure name of the whole registry is probed without running it (a call with one argument too many: the label is the argument list iff the name is defined, the name iff it is not) and the importer's variable is displayed; user modules: generated files in the importer's directory or sub-directories with top-level output, a module variable, two exported procedures (one calling the other), a private procedure, optionally a runtime / syntax / lexical error or a nested import relative to the module's own directory; imported whole, by one name, by a list, by a private name, twice; probes for exported / private / module-variable / nested names and the importer's variables; in-process with the model given the same file tree; modules declaring one name several times (exported / private in every order) under every import form; module top-level code calling what only its importer imported or declared; ordered pairs and triples of imports of one module (whole / one name / another / a list, the second also in a loop); trees with symbolic links (program, module, directory reached through a link)".into(),
         exhaustive: false,
         notes: vec!["exported procedures that call a procedure the importer did not import are the known finding (see known_findings.txt); the generator imports the whole module whenever an exported procedure calls another one".into()],
     }
@@ -1125,6 +1228,17 @@ pub fn c18(ctx: &Ctx) -> PropResult {
     ] {
         programs.push((tag.to_string(), src.to_string()));
     }
+    // many diagnostics at once (limits, summaries and "... and N more" lines are written by the front end of the tool,
+    // never by the lexer, the parser or the evaluator), input exhausted at each INPUT call
+    for n in [1usize, 9, 10, 11, 12, 50, 300] {
+        programs.push(("many-lexical-errors".into(), "x <- 1 # 2\n".repeat(n)));
+        programs.push(("many-lexical-errors".into(), format!("DISPLAY(\"A\")\n{}", "@ ".repeat(n))));
+        programs.push(("many-syntax-errors".into(), "IF )\n".repeat(n)));
+        programs.push(("many-syntax-errors".into(), format!("DISPLAY(\"A\")\n{}", "x <- (1\n".repeat(n))));
+    }
+    for k in 1..4 {
+        programs.push(("input-exhausted".into(), format!("IMPORT MOD \"IO\"\nDISPLAY(\"A\")\n{}DISPLAY(INPUT_PROMPT(\"p> \"))\nDISPLAY(\"B\")\n", "DISPLAY(INPUT())\n".repeat(k))));
+    }
     // rarely taken evaluator branches: FOR EACH over a list its body changes, operand-order cases, procedure limits
     for (i, src) in crate::props3::for_each_mutation_family().into_iter().enumerate() {
         if i % 3 == 0 {
@@ -1270,7 +1384,7 @@ pub fn c18(ctx: &Ctx) -> PropResult {
     }
     PropResult {
         stats: st,
-        rule: "every library procedure of the live registry (SLEEP excepted; FS inside a scratch working directory, INPUT with an empty standard input) called once with plausible arguments between two DISPLAY probes, every statement form, the three IMPORT forms, lexical / syntax / runtime errors, random programs; run in-process with the output channel captured by the hook sink while the process's file descriptors 1 and 2 are redirected to files: the sink must hold exactly the model's displayed output and the descriptors must stay empty (lexing and parsing alone included); static part: the census of output sites regenerated into Gen/Sites.lean and closed by `decide` (see theorems)".into(),
+        rule: "every library procedure of the live registry (SLEEP excepted; FS inside a scratch working directory, INPUT with an empty standard input) called once with plausible arguments between two DISPLAY probes, every statement form, the three IMPORT forms, lexical / syntax / runtime errors, random programs; run in-process with the output channel captured by the hook sink while the process's file descriptors 1 and 2 are redirected to files: the sink must hold exactly the model's displayed output and the descriptors must stay empty (lexing and parsing alone included); static part: the census of output sites regenerated into Gen/Sites.lean and closed by `decide` (see theorems); programs with 1 .. 300 lexical / syntax errors; INPUT at end of input".into(),
         exhaustive: false,
         notes: vec![format!("{} output sites in /repo/src", output_sites().len()), "the library in its wasm configuration is type-checked by ./check on every run (cargo check --lib --no-default-features --features wasm), not executed".into()],
     }
